@@ -32,15 +32,19 @@ type ctxKey struct{}
 
 // pipe is one Session RPC: the client end and the server end of the same stream.
 type pipe struct {
-	w      *world
-	id     int
-	src    int
-	ctx    context.Context
-	cancel context.CancelFunc
-	c2s    chan *signaling.SessionRequest
-	s2c    chan *signaling.SessionResponse
-	mtx    sync.Mutex
-	sends  []sigtrace.Sub
+	w         *world
+	id        int
+	src       int
+	ctx       context.Context // client side
+	cancel    context.CancelFunc
+	sctx      context.Context // server side: outlives the client side when the stream dies silently
+	scancel   context.CancelFunc
+	severed   chan struct{} // closed when the stream died silently (the relay has not noticed)
+	severOnce sync.Once
+	c2s       chan *signaling.SessionRequest
+	s2c       chan *signaling.SessionResponse
+	mtx       sync.Mutex
+	sends     []sigtrace.Sub
 }
 
 // clientEnd implements signaling.SRPCSignaling_SessionClient.
@@ -54,16 +58,30 @@ func (c *clientEnd) Send(m *signaling.SessionRequest) error {
 		c.p.mtx.Unlock()
 	}
 	select {
+	case <-c.p.severed:
+		return io.ErrUnexpectedEOF
+	default:
+	}
+	select {
 	case c.p.c2s <- m:
 		return nil
+	case <-c.p.severed:
+		return io.ErrUnexpectedEOF
 	case <-c.p.ctx.Done():
 		return context.Canceled
 	}
 }
 func (c *clientEnd) Recv() (*signaling.SessionResponse, error) {
 	select {
+	case <-c.p.severed:
+		return nil, io.ErrUnexpectedEOF
+	default:
+	}
+	select {
 	case m := <-c.p.s2c:
 		return m, nil
+	case <-c.p.severed:
+		return nil, io.ErrUnexpectedEOF
 	case <-c.p.ctx.Done():
 		return nil, context.Canceled
 	}
@@ -84,22 +102,43 @@ func (c *clientEnd) Close() error               { c.p.cancel(); return nil }
 // serverEnd implements signaling.SRPCSignaling_SessionStream.
 type serverEnd struct{ p *pipe }
 
-func (s *serverEnd) Context() context.Context { return s.p.ctx }
+func (s *serverEnd) Context() context.Context { return s.p.sctx }
 func (s *serverEnd) Send(m *signaling.SessionResponse) error {
 	s.p.w.logTx(s.p.id, m)
+	if _, ok := m.GetBody().(*signaling.SessionResponse_RecvMsg); ok && s.p.w.takeSever(s.p.src) {
+		// the stream dies silently with this message in flight: the client sees an error, the
+		// relay keeps believing the stream is alive (its writes are buffered by the transport)
+		s.p.severOnce.Do(func() { close(s.p.severed) })
+	}
+	select {
+	case <-s.p.severed:
+		return nil
+	default:
+	}
 	select {
 	case s.p.s2c <- m:
 		return nil
-	case <-s.p.ctx.Done():
+	case <-s.p.severed:
+		return nil
+	case <-s.p.sctx.Done():
 		return context.Canceled
 	}
 }
 func (s *serverEnd) SendAndClose(m *signaling.SessionResponse) error { return s.Send(m) }
 func (s *serverEnd) Recv() (*signaling.SessionRequest, error) {
 	select {
+	case <-s.p.severed:
+		<-s.p.sctx.Done()
+		return nil, context.Canceled
+	default:
+	}
+	select {
 	case m := <-s.p.c2s:
 		return m, nil
-	case <-s.p.ctx.Done():
+	case <-s.p.severed:
+		<-s.p.sctx.Done()
+		return nil, context.Canceled
+	case <-s.p.sctx.Done():
 		return nil, context.Canceled
 	}
 }
@@ -127,8 +166,9 @@ func (r *relayClient) Listen(ctx context.Context, in *signaling.ListenRequest) (
 	return nil, io.EOF
 }
 func (r *relayClient) Session(ctx context.Context) (signaling.SRPCSignaling_SessionClient, error) {
-	pctx, cancel := context.WithCancel(context.WithValue(ctx, ctxKey{}, r.w.e.pids[r.src]))
-	p := &pipe{w: r.w, src: r.src, ctx: pctx, cancel: cancel, c2s: make(chan *signaling.SessionRequest, 16), s2c: make(chan *signaling.SessionResponse, 16)}
+	pctx, cancel := context.WithCancel(ctx)
+	sctx, scancel := context.WithCancel(context.WithValue(r.w.ctx, ctxKey{}, r.w.e.pids[r.src]))
+	p := &pipe{w: r.w, src: r.src, ctx: pctx, cancel: cancel, sctx: sctx, scancel: scancel, severed: make(chan struct{}), c2s: make(chan *signaling.SessionRequest, 16), s2c: make(chan *signaling.SessionResponse, 16)}
 	se := &serverEnd{p: p}
 	r.w.mtx.Lock()
 	r.w.pipes = append(r.w.pipes, p)
@@ -136,7 +176,24 @@ func (r *relayClient) Session(ctx context.Context) (signaling.SRPCSignaling_Sess
 	r.w.calls[fmt.Sprintf("%p", se)] = p.id
 	r.w.mtx.Unlock()
 	go func() {
-		_ = r.w.srv.Session(se)
+		// the relay notices a client-side close unless the stream died silently
+		select {
+		case <-pctx.Done():
+			select {
+			case <-p.severed:
+			default:
+				scancel()
+			}
+		case <-sctx.Done():
+		}
+	}()
+	go func() {
+		if err := r.w.srv.Session(se); err == signaling.ErrUserpedSession {
+			r.w.mtx.Lock()
+			r.w.usurped++
+			r.w.mtx.Unlock()
+		}
+		scancel()
 		cancel()
 	}()
 	return &clientEnd{p: p}, nil
@@ -161,13 +218,28 @@ type appEvent struct {
 }
 
 type world struct {
-	e     *engine
-	srv   *signaling_rpc_server.Server
-	mtx   sync.Mutex
-	log   []string
-	calls map[string]int
-	pipes []*pipe
-	app   []appEvent
+	ctx     context.Context // ends with the scenario
+	usurped int
+	sever   map[int]int // peer -> number of relayed messages until its stream dies silently (0 = not armed)
+	e       *engine
+	srv     *signaling_rpc_server.Server
+	mtx     sync.Mutex
+	log     []string
+	calls   map[string]int
+	pipes   []*pipe
+	app     []appEvent
+}
+
+// takeSever reports whether the stream of peer src dies with the relayed message being written now.
+func (w *world) takeSever(src int) bool {
+	w.mtx.Lock()
+	defer w.mtx.Unlock()
+	n := w.sever[src]
+	if n == 0 {
+		return false
+	}
+	w.sever[src] = n - 1
+	return n == 1
 }
 
 func (w *world) sink(line string) {
@@ -215,7 +287,13 @@ func (w *world) quiesce(d time.Duration) {
 }
 
 func (e *engine) scenario(kind string, nMsgs int) {
-	w := &world{e: e, calls: map[string]int{}}
+	wctx, wcancel := context.WithCancel(context.Background())
+	defer wcancel()
+	w := &world{e: e, calls: map[string]int{}, ctx: wctx, sever: map[int]int{}}
+	if kind == "usurp" {
+		// B's stream dies silently while the k-th relayed message is in flight to it
+		w.sever[2] = 1 + e.rng.Intn(nMsgs)
+	}
 	w.srv = signaling_rpc_server.NewServerWithIdentify(e.le, func(ctx context.Context) (peer.ID, error) {
 		return ctx.Value(ctxKey{}).(peer.ID), nil
 	})
@@ -380,6 +458,12 @@ func (e *engine) scenario(kind string, nMsgs int) {
 			dups++
 		}
 	}
+	w.mtx.Lock()
+	e.rep.Extra["usurped_streams"] = e.rep.Extra["usurped_streams"].(int) + w.usurped
+	if kind == "usurp" && w.usurped > 0 {
+		e.rep.Case("sige2e[usurp] relay replaced a silently dead stream", "ok", "ok", "e2e.usurp.replaced", true)
+	}
+	w.mtx.Unlock()
 	e.rep.Extra["messages"] = e.rep.Extra["messages"].(int) + len(payloads)
 	e.rep.Extra["redelivered_after_reattach"] = e.rep.Extra["redelivered_after_reattach"].(int) + dups
 	e.rep.Extra["relay_events"] = e.rep.Extra["relay_events"].(int) + strings.Count(tr, ";") + 1
@@ -396,12 +480,14 @@ func (e *engine) scenario(kind string, nMsgs int) {
 }
 
 func (e *engine) run() {
-	e.rep.Rule = "two real signaling clients and the real relay composed through in-memory SRPC stream pairs: A sends 3–10 messages sequentially to B (each waits for its ack) while B's application receives; stable, and with B dropping/re-acquiring its session mid-flight; monitors: Send success only after the partner application received the message, all sends complete; the relay's trace replayed on the Lean LTS; distinct = scenario"
-	e.rep.Require("e2e.stable", "e2e.reattach")
+	e.rep.Rule = "two real signaling clients and the real relay composed through in-memory SRPC stream pairs: A sends 3–10 messages sequentially to B (each waits for its ack) while B's application receives; stable, with B dropping/re-acquiring its session mid-flight, and with B's stream dying silently while a relayed message is in flight (B reconnects while the relay still holds the old stream: the usurp path); monitors: Send success only after the partner application received the message, all sends complete; the relay's trace replayed on the Lean LTS; distinct = scenario"
+	e.rep.Require("e2e.stable", "e2e.reattach", "e2e.usurp", "e2e.usurp.replaced")
 	e.rep.Extra["messages"], e.rep.Extra["redelivered_after_reattach"], e.rep.Extra["relay_events"] = 0, 0, 0
+	e.rep.Extra["usurped_streams"] = 0
 	for i := 0; i < 4*e.a.Scale; i++ {
 		e.scenario("stable", 3+e.rng.Intn(8))
 		e.scenario("reattach", 3+e.rng.Intn(8))
+		e.scenario("usurp", 3+e.rng.Intn(8))
 	}
 }
 
